@@ -24,7 +24,15 @@ if mods:
     ck.lean(mods)
     ck.require_theorems(['LbzVerif.Props.C15.stream_flip_rejected',
                          'LbzVerif.Props.C15.block_flip_rejected',
-                         'LbzVerif.Props.C15.blockCrc_captured'])
+                         'LbzVerif.Props.C15.blockCrc_captured',
+                         'LbzVerif.Props.C15.File.block_crc_flip_rejected',
+                         'LbzVerif.Props.C15.File.stream_crc_flip_rejected',
+                         'LbzVerif.Props.C15.File.crc_flip_never_accepted',
+                         'LbzVerif.Props.C15.File.crc_field_position',
+                         'LbzVerif.Props.C15.File.crc_flip_never_terminates'])
+sys.path.insert(0, os.path.dirname(os.path.abspath(__file__)))
+import inproc  # noqa: E402
+inproc.run_libs(ck, ['w25_crcflip'])
 exe = ck.build_lbzip2(asan=False)
 evals = 0
 fields_total = 0
